@@ -245,7 +245,7 @@ func (rc *recorder) slowUndoWriter() func() {
 		if buf != nil {
 			if rc.seed != 0 && atomic.AddInt32(&first, 1)%64 == 1 {
 				// a writer that starts late: the workers of UnspentDB.commit get ahead of it
-				if os.Getenv("C11_SLOW") != "" { time.Sleep(20 * time.Millisecond) }; time.Sleep(time.Duration(mix(rc.seed, uint64(atomic.LoadUint64(&rc.ctr)))%1500) * time.Microsecond)
+				time.Sleep(time.Duration(mix(rc.seed, uint64(atomic.LoadUint64(&rc.ctr)))%1500) * time.Microsecond)
 			}
 			rc.perturb()
 		}
@@ -606,6 +606,18 @@ func genScenario(seed uint64, thorough bool, gt uint32, compr bool, recycle bool
 		case 2:
 			do(Op{Kind: "idle"})
 			do(Op{Kind: "savewait"})
+		case 3:
+			// a commit that arrives right after Save() returned: the block is empty, so nothing but the hand-shake of
+			// abortWriting stands between the just started saver and the mutation
+			// and the main loop asking twice (a node calls Idle whenever it has nothing else to do): the second call comes
+			// while the saver started by the first may not have executed a single statement yet
+			do(Op{Kind: "idle"})
+			if g.Bool() {
+				do(Op{Kind: "idle"})
+				sc.hist["op:idle-right-after-idle"]++
+			}
+			do(Op{Kind: "block", Raw: k.Build(chainkit.BlockSpec{}), Note: "empty-after-idle"})
+			sc.hist["block:empty-right-after-idle"]++
 		}
 		if g.Chance(1, 5) {
 			do(Op{Kind: "hurry"})
@@ -1117,6 +1129,10 @@ func workerMain(args []string) {
 			replay(sc, cfg, out)
 			out.Hist[fmt.Sprintf("replay:procs=%d", cfg.Procs)]++
 		}
+		// the run-to-block schedule: one P, no yields - a goroutine that has been started does not run before its starter
+		// parks (the extreme of "the new goroutine is late": Save() has returned, the saver has not executed anything yet)
+		replay(sc, Cfg{Name: "u-p1-unperturbed", Procs: 1, TargetU: int64(g.Pick(0, 20000))}, out)
+		out.Hist["replay:procs=1-unperturbed"]++
 	}
 	if part("recycle") {
 		// the client's default memory configuration: UTXO records in the recycling allocator; blocks that free and allocate
